@@ -87,5 +87,27 @@ claim("C18",
       "trusted: TLC, CPython random.random() reached through the oracle",
       "TLA+ spec + TLC; exhaustive RNG decision-tree enumeration of the implementation judged by TLC", "DESIGN.md 4 C18")
 
+# crash points (DESIGN.md 9, 11 wave 7): which claims also judge a complete call made after an abandoned one
+_CRASH = {
+    "C01": "the earlier call on the same generator was aborted by its k-th build callback raising (StubMatching!Abort; leak deviations refuted)",
+    "C02": "the earlier call on the same generator was aborted by its k-th build callback raising (StubMatching!Abort; leak deviations refuted)",
+    "C03": "the exact law is also judged after an aborted call and after the caller edited its list in place",
+    "C04": "a conversion of the same edge-list object was abandoned at an arbitrary source line first",
+    "C06": "a construction with the same callables was aborted (callable raising at its k-th call, or abandoned at an arbitrary source line); rejected-input lifecycle TryCandidate/Restore model-checked",
+    "C07": "constructions over fresh degree ranges abandoned at an arbitrary source line first (cold memo); rejected-input lifecycle model-checked",
+    "C08": "a malformed cover through the setter is rejected by create_jdd and the previous cover put back; construction abandoned at an arbitrary source line first",
+    "C09": "a run on the same object was abandoned at an arbitrary source line, the edges added again",
+    "C10": "the earlier cover of the same graph object was abandoned at an arbitrary line, also inside networkx's clique enumeration",
+    "C11": "a rewiring of the same network on the same object was abandoned at an arbitrary source line first",
+    "C12": "a rewiring of the same network on the same object was abandoned at an arbitrary source line first",
+    "C13": "an extraction on the same extractor was abandoned at an arbitrary source line first",
+    "C15": "the same evaluation (same evaluator, same graph object) was abandoned at an arbitrary source line first",
+    "C16": "a count was abandoned at an arbitrary source line with an empty memo, then every count of that size judged again",
+    "C17": "queries on the shared object were abandoned at an arbitrary source line before the judged query",
+    "C20": "calls that raise (removal of an absent element, insertion of an unhashable tuple) are model actions that must leave the structure as it was; draw support is enumerated right after them",
+}
+for _pid, _t in _CRASH.items():
+    CHECKS[_pid]["text"] += "; CRASH POINTS (CrashPoints.tla: Abort after every micro-step, a later complete call equals a fresh object's; reset-at-end and register-before-fill deviations refuted by TLC): " + _t
+
 _pending = "no check built yet in this round; planned (DESIGN.md 4)"
 NOT_APPLICABLE["C19"] = "numerical accuracy of four stateless real-valued functions (exp, zeta, polylog): no state, no transitions, TLC has neither reals nor transcendental functions (DESIGN.md 5)"
